@@ -16,7 +16,26 @@ ROOT = os.path.dirname(os.path.dirname(os.path.abspath(__file__)))
 REPO = "/repo"
 
 
+def summary_from_metas():
+    """Rebuild seeded/SUMMARY.json from the 'rerun' records kept in every meta.json (after partial re-runs)."""
+    rows = []
+    for d in sorted(glob.glob(os.path.join(ROOT, "seeded", "*"))):
+        if not os.path.isdir(d):
+            continue
+        meta = json.load(open(os.path.join(d, "meta.json")))
+        res = meta.get("rerun") or {p: {"exit": rc, "oracle": None, "wall_s": None} for p, rc in (meta.get("check_exit_codes_on_changed_tree") or {}).items()}
+        rows.append({"seeded": os.path.basename(d), "property": meta.get("property"), "summary": meta.get("summary"), "checks": res,
+                     "caught": any(v.get("exit") == 1 for v in res.values())})
+    json.dump(rows, open(os.path.join(ROOT, "seeded", "SUMMARY.json"), "w"), indent=1)
+    print(f"{len(rows)} seeded changes, {sum(1 for r in rows if r['caught'])} caught by at least one owning check")
+    for r in rows:
+        if not r["caught"]:
+            print("NOT CAUGHT:", r["seeded"], r["checks"])
+
+
 def main():
+    if len(sys.argv) > 1 and sys.argv[1] == "--summary":
+        return summary_from_metas()
     flt = sys.argv[1] if len(sys.argv) > 1 else ""
     rows = []
     for d in sorted(glob.glob(os.path.join(ROOT, "seeded", "*"))):
